@@ -219,7 +219,7 @@ def build_cases(rng, worlds, probes, tier):
         fp_of = lambda c: wd["fps"][json.dumps(c)]
         n_fam = 2 if tier == "quick" else 3
         for _ in range(n_fam):
-            k = rng.choice([1, 2, 2, 3, 3, 4])
+            k = rng.choice([1, 2, 2, 3, 3, 4, 4])
             pool = good if (len(good) >= k and rng.random() < 0.85) else wd["calls"]
             if len(pool) < k:
                 k = len(pool)
@@ -397,7 +397,7 @@ def run(args):
         data = json.load(open(args.replay))
         cases = [data["input"]["case"]]
     else:
-        worlds = gen_worlds(rng, {"quick": 34, "thorough": 180}[args.tier])
+        worlds = gen_worlds(rng, {"quick": 44, "thorough": 180}[args.tier])
         probes = run_impl([{"op": "c16.probe", "domain_text": w["domain_text"], "problem_text": w["problem_text"],
                             "calls": w["calls"]} for w in worlds])
         cases = corpus_cases() + fixture_cases(args.tier) + build_cases(rng, worlds, probes, args.tier)
